@@ -361,6 +361,21 @@ static void gen_c16_alts(Rng &r, Case &c, const std::vector<uint8_t> &img, const
                     }
             }
         }
+        if (decoded && !rf.params.empty()) {
+            // a record re-shaped into seven dimensions with a zero behind (or before) large ones: nothing to read, and a
+            // reader that nests one loop per dimension may spin through 255^6 empty iterations
+            static const uint8_t SHAPES[3][7] = {{255, 255, 255, 255, 255, 255, 0}, {0, 255, 255, 255, 255, 255, 255}, {255, 255, 255, 0, 255, 255, 255}};
+            for (int k = 0; k < (thorough ? 12 : 3); ++k) {
+                const RefParam &rp = rf.params[r.below(rf.params.size())];
+                uint64_t nd = rp.data_off - rp.dims.size() - 1;
+                if (nd + 8 >= S) continue;
+                std::vector<Damage> alt;
+                alt.push_back({D_ROT, static_cast<int64_t>(nd), 7, 0});
+                const uint8_t *sh = SHAPES[r.below(3)];
+                for (unsigned q = 0; q < 7; ++q) alt.push_back({D_ROT, static_cast<int64_t>(nd + 1 + q), sh[q], 0});
+                c.alts.push_back(alt); c.alt_labels.push_back("rot.dims-with-zero");
+            }
+        }
         for (int k = 0; k < (thorough ? 256 : 48) && S; ++k) {
             std::vector<Damage> alt;
             unsigned cnt = 1 + static_cast<unsigned>(r.below(4));
